@@ -152,9 +152,16 @@ def main():
     ap.add_argument("--seed", type=int, default=1)
     ap.add_argument("--out", default="/verif/sweep/sweep.jsonl")
     ap.add_argument("--files", default=",".join(MAP.keys()))
+    ap.add_argument("--skip", default="", help="comma-separated JSONL files of earlier sweeps: their mutants are not repeated")
     a = ap.parse_args()
     files = [f for f in a.files.split(",") if f]
     cands = candidates(files)
+    done = set()
+    for f in [x for x in a.skip.split(",") if x]:
+        for line in open(f):
+            r = json.loads(line)
+            done.add((r["file"], r["line"], r["after"]))
+    cands = [c for c in cands if (c[0], c[1] + 1, c[3].strip()) not in done]
     rng = random.Random(a.seed)
     rng.shuffle(cands)
     # at most 2 mutants per source line
